@@ -397,6 +397,10 @@ func rawPathFacts(ff *core.FnFacts, path []*ssa.BasicBlock) core.FactSet {
 		for _, f := range ff.EdgeFacts(path[i], path[i+1]) {
 			set[f.Key()] = f
 		}
+		// a test of a merged value says something about the operand this path selected
+		for _, f := range ff.PathTestFacts(path[:i+1], path[i+1]) {
+			set[f.Key()] = f
+		}
 	}
 	return set
 }
